@@ -10,6 +10,7 @@ LitsFull == {Sc(5), Mat(1, 2), Rec(1, 2), Tup(1, 2), SetV, TblV}
 LitsOp == {Sc(5), Mat(1, 2), Rec(1, 2), TblV}
 LitsSmall == {Sc(5), Mat(1, 2), Tup(1, 2)}
 LitsPart == {Sc(5), Mat(1, 2), Mat(3, 4), Rec(1, 2), Tup(1, 2)}
+LitsAnnot == {Sc(5), Mat(1, 2)}
 
 View == <<store, mut>>
 
